@@ -19,7 +19,7 @@ static const u32_t S = iobuffer::sum;
 static const u32_t NB = iobuffer::BUF_SZ;
 
 // ---- configuration ----------------------------------------------------------------------------------
-static int Tn = 2, ENC = 1, COARSE = 0, CMODE = 1, HMODE = 0;
+static int Tn = 2, ENC = 1, COARSE = 0, CMODE = 1, HMODE = 0, RAWDEC = 0;
 static std::string SCEN = "pipe";
 static Bytes IN, EXP;
 static const u8_t KEY[16] = {0x00, 0x11, 0x22, 0x33, 0x44, 0x55, 0x66, 0x77, 0x88, 0x99, 0xaa, 0xbb, 0xcc, 0xdd, 0xee, 0xff};
@@ -30,6 +30,7 @@ struct LogEnt { int tid, buf; long gblock; };
 static std::vector<LogEnt> g_log[multicry_master::THREAD_MAX];
 static int g_chunk_of_buf[multicry_master::THREAD_MAX];
 static int g_nchunks = 0;
+static long g_hook_events = 0; // WENCRY_VERIF_POINT events seen in this execution
 static int g_io_busy[multicry_master::THREAD_MAX];
 static std::vector<std::string> g_overlap;
 #define g_bg (buffergroup::instance)
@@ -85,6 +86,7 @@ static Bytes pad(const Bytes &p) { Bytes d = p; int n = 16 - (int)(d.size() % 16
 // ---- hook sink: events, happens-before accesses, scheduling points ---------------------------------------
 extern "C" void wencry_verif_point(int kind, long index, long aux) {
   if (!vs_active()) return;
+  g_hook_events++;
   int bi = (kind == WV_BUF_LOAD_STEP || kind == WV_BUF_EXPORT_STEP) ? buf_index_of((void *)index) : (int)index;
   if (bi < 0 || bi >= multicry_master::THREAD_MAX) { vs_point(kind, -1); return; }
   // scheduling point first: the access happens after the point
@@ -150,6 +152,7 @@ static void scenario_pipe(std::string &obs) {
   for (auto &c : g_chunk_of_buf) c = -1;
   memset(g_io_busy, 0, sizeof g_io_busy);
   g_nchunks = 0;
+  g_hook_events = 0;
   g_overlap.clear();
   int ifd = memfd_with(IN), ofd = memfd_with({});
   g_ofd = ofd;
@@ -169,11 +172,11 @@ static void scenario_pipe(std::string &obs) {
   fflush(fo);
   Bytes out = slurp_fd(ofd);
   // M-out
-  std::string mout = (out == EXP) ? "ok" : "BAD(len=" + std::to_string(out.size()) + ",exp=" + std::to_string(EXP.size()) + ")";
+  std::string mout = (RAWDEC || out == EXP) ? "ok" : "BAD(len=" + std::to_string(out.size()) + ",exp=" + std::to_string(EXP.size()) + ")";
   // per-stream log
   std::string mlog = "ok";
   size_t body = ENC ? pad(IN).size() : IN.size();
-  bool attributable = true; // blocks handed to the streams lie inside the chunk buffers (else: a refactoring copies them; only M-out applies)
+  bool attributable = !RAWDEC; // blocks handed to the streams lie inside the chunk buffers (else: a refactoring copies them; only M-out applies)
   for (int j = 0; j < Tn; j++) for (auto &l : g_log[j]) if (l.buf < 0) attributable = false;
   for (int j = 0; j < Tn && mlog == "ok" && attributable; j++) {
     std::vector<long> e = expected_blocks(j, body);
@@ -191,7 +194,7 @@ static void scenario_pipe(std::string &obs) {
   }
   std::string ov;
   for (auto &o : g_overlap) ov += (ov.empty() ? "" : ",") + o;
-  obs = "out=" + digest8(out) + ";mout=" + mout + ";mlog=" + mlog + ";races=" + (races.empty() ? "none" : races) + ";overlap=" + (ov.empty() ? "none" : ov) + ";threads=" + std::to_string(nthreads);
+  obs = "out=" + digest8(out) + ";mout=" + mout + ";mlog=" + mlog + ";races=" + (races.empty() ? "none" : races) + ";overlap=" + (ov.empty() ? "none" : ov) + ";threads=" + std::to_string(nthreads) + ";hooks=" + (g_hook_events > 0 ? "seen" : "MISSING");
 }
 
 // end-to-end through runcrypt with the real AES streams, compared with the reference file
@@ -252,6 +255,7 @@ int main(int argc, char **argv) {
   ENC = (int)a.num("enc", 1);
   COARSE = (int)a.num("coarse", 0);
   SCEN = a.str("scenario", "pipe");
+  RAWDEC = (int)a.num("rawdec", 0); // decrypt direction on a raw body of exactly `len` bytes (need not be a multiple of 16): output is unspecified, termination and ownership are not
   CMODE = (int)a.num("cmode", 1);
   HMODE = (int)a.num("hmode", 0);
   vx::Config cfg;
@@ -270,6 +274,7 @@ int main(int argc, char **argv) {
   vx::Scenario sc;
   if (SCEN == "pipe") {
     if (ENC) { IN = P; EXP = pad(P); chain_ref(EXP, Tn, true); }
+    else if (RAWDEC) { IN = P; EXP.clear(); }
     else { IN = pad(P); chain_ref(IN, Tn, true); EXP = P; }
     sc = scenario_pipe;
   } else {
@@ -279,7 +284,7 @@ int main(int argc, char **argv) {
     if (ENC) { IN = P; EXP = F; } else { IN = F; EXP = P; }
     sc = scenario_e2e;
   }
-  std::string cfgname = SCEN + ":T=" + std::to_string(Tn) + ",len=" + std::to_string(len) + ",enc=" + std::to_string(ENC) + ",S=" + std::to_string(S) + (COARSE == 1 ? ",medium" : COARSE == 2 ? ",coarse" : "") + (cfg.sleep ? ",sleepsets" : (cfg.delay ? ",delaybound=" : ",bound=") + std::to_string(cfg.bound)) + (cfg.spurious ? ",spurious=" + std::to_string(cfg.spurious) : "");
+  std::string cfgname = SCEN + ":T=" + std::to_string(Tn) + ",len=" + std::to_string(len) + ",enc=" + std::to_string(ENC) + ",S=" + std::to_string(S) + (RAWDEC ? ",rawbody" : "") + (COARSE == 1 ? ",medium" : COARSE == 2 ? ",coarse" : "") + (cfg.sleep ? ",sleepsets" : (cfg.delay ? ",delaybound=" : ",bound=") + std::to_string(cfg.bound)) + (cfg.spurious ? ",spurious=" + std::to_string(cfg.spurious) : "");
 
   if (a.has("replay")) { // run one schedule twice, print observations, exit 0 iff identical
     std::vector<int> pre = a.list("replay");
@@ -314,7 +319,7 @@ int main(int argc, char **argv) {
         if (x.outcome == vx::OC_TIMEOUT && y.outcome != vx::OC_TIMEOUT) { reported[k]--; continue; } // slow machine, not a hang
         bool same = false;
         for (auto &e2 : classify_all(y)) if (e2.prop == e.prop && e2.key == e.key) same = true;
-        std::string rargs = "T=" + std::to_string(Tn) + " len=" + std::to_string(len) + " enc=" + std::to_string(ENC) + " scenario=" + SCEN + " cmode=" + std::to_string(CMODE) + " hmode=" + std::to_string(HMODE) + " coarse=" + std::to_string(COARSE) + " spurious=" + std::to_string(cfg.spurious) + " sleep=" + std::to_string(cfg.sleep ? 1 : 0) + " prop=" + e.prop + " bufsz=" + std::to_string(NB);
+        std::string rargs = "T=" + std::to_string(Tn) + " len=" + std::to_string(len) + " enc=" + std::to_string(ENC) + " scenario=" + SCEN + " cmode=" + std::to_string(CMODE) + " hmode=" + std::to_string(HMODE) + " coarse=" + std::to_string(COARSE) + " rawdec=" + std::to_string(RAWDEC) + " spurious=" + std::to_string(cfg.spurious) + " sleep=" + std::to_string(cfg.sleep ? 1 : 0) + " prop=" + e.prop + " bufsz=" + std::to_string(NB);
         J().s("t", "viol").s("prop", e.prop).s("key", e.key).s("desc", "[" + cfgname + "] " + e.desc + " | deviations=" + std::to_string(vx::deviations_of(x)) + (same ? " | replayed: same verdict" : " | REPLAY DIFFERS: " + vkeys(classify_all(y))))
             .raw("replay", J().s("harness", "pipe_explore").s("args", rargs).raw("schedule", jarr(ch)).n("bufsz", NB).str()).bo("confirmed", same).emit();
       }
@@ -334,6 +339,7 @@ int main(int argc, char **argv) {
   J().s("t", "cov").n("evaluations", st.executions).n("transitions", st.transitions).n("nontrivial", st.nontrivial).n("states_shard", (long)st.states.size()).n("sleepblocked", st.sleepblocked)
       .n("distinct_observations", (long)st.observations.size()).n("capped", st.capped ? 1 : 0).emit();
   J().s("t", "hist").s("name", "outcomes").raw("counts", jmap(oc)).emit();
+  if (SCEN == "pipe") { bool seen = true; for (auto &o : st.observations) if (o.first.find("hooks=MISSING") != std::string::npos) seen = false; J().s("t", "flag").s("name", "hooks_seen").bo("value", seen).emit(); }
   J().s("t", "info").s("config", cfgname).n("executions", st.executions).n("states", (long)st.states.size()).n("max_deviations", st.max_preemptions_seen).bo("completed", !st.capped).n("distinct_observations", (long)st.observations.size()).n("shard", cfg.shard).emit();
   return 0;
 }
